@@ -617,7 +617,11 @@ def edits(draw, spec, stash, kinds=None):
                 spec["env"][n] = older.get(n)
                 desc += [n, spec["env"][n]]
     elif kind == "change_script" and names:
-        n = draw(st.sampled_from(names))
+        # also the script of a step whose plan is currently dropped (its nodes may still be in
+        # the database, detached, and come back when the plan is added again)
+        dormant = sorted(set(spec["steps"]) - set(names))
+        pool = names + dormant if dormant and draw(st.booleans()) else names
+        n = draw(st.sampled_from(pool))
         spec["steps"][n]["variant"] = spec["steps"][n].get("variant", 0) + 1
         desc.append(n)
     elif kind == "toggle_fail" and names:
